@@ -30,7 +30,7 @@ from decimal import Decimal
 import math
 from measured import Measurement
 U1, U2 = measured.si.Meter, measured.us.Foot
-a, s, b, t = Decimal(0) / Decimal(1), Decimal(1) / Decimal(8), Decimal(-1000) / Decimal(1), Decimal(0) / Decimal(1)
+a, s, b, t = Decimal(0) / Decimal(1), Decimal(1) / Decimal(2), Decimal(0) / Decimal(1), Decimal(0) / Decimal(1)
 expr = lambda: Measurement(a * U1, s) * Measurement(b * U2, t)
 s_ = float(s) if True else 0.0
 t_ = float(t) if True else 0.0
